@@ -14,7 +14,7 @@ from __future__ import annotations
 import os
 import shutil
 
-from vlib import cli, common, corpus, emit, fuzzgen, modelgen
+from vlib import cli, common, corpus, emit, evo, fuzzgen, modelgen
 from vlib.common import pmap, rng, Inconclusive
 from vlib.model import *  # noqa
 
@@ -262,6 +262,9 @@ def run(ctx):
         jobs.append(("tagkind", i))
     for i in range(len(DEEP)):
         jobs.append(("deep", i))
+    # packages with a previous version: every documented kind of change (compatible, partial, breaking), only totality is judged here
+    for i in range(3 * len(evo.ALL_EDITS) if quick else 40 * len(evo.ALL_EDITS)):
+        jobs.append(("evolve", i))
     # every catalogue expression, alone, on a record whose fields have known types (plus seeded compositions)
     n_expr = len(fuzzgen.EXPRS) + (60 if quick else 2000)
     for i in range(n_expr):
@@ -290,6 +293,18 @@ def run(ctx):
             files = {k: v for k, v in files.items() if not k.startswith(root_rel + "/") or k.endswith("_package.yml")}
             files[root_rel + "/model.yml"] = TAGKIND[i]
             desc += " tag/kind mismatch `%s`" % TAGKIND[i].replace("\n", " | ")[:90]
+        elif kind == "evolve":
+            base_pkg = evo.evo_base("c10evo_%d_%d" % (common.seed(), i % 7))
+            edit = evo.ALL_EDITS[i % len(evo.ALL_EDITS)]
+            newer, info = evo.apply_edit(base_pkg, edit, r)
+            if newer is None:
+                ctx.count("evolve.not-applicable")
+                return
+            base_pkg.dirname, newer.dirname = "v0", "v1"
+            outs = emit.default_outputs("../out", matlab=True, json=True)
+            files = evo.chain_files([base_pkg, newer], outs)
+            root_rel = "v1"
+            desc += " previous version + edit %s" % info["name"]
         elif kind == "deep":
             files = {k: v for k, v in files.items() if not k.startswith(root_rel + "/") or k.endswith("_package.yml")}
             files[root_rel + "/model.yml"] = DEEP[i][1]
